@@ -73,7 +73,8 @@ def run(ctx, out):
         a = baseline(spec, cfg, calls)
         n_items = len(a.trigger)
         for j in range(n_items):
-            for f in faults:
+            # where an acknowledgement is due also: a WELL-FORMED packet of another kind (intermediate status, completion)
+            for f in faults + (["garbage:04ff0117", "garbage:060f00"] if a.is_ack[j] else []):
                 ops.append(G.op_line(cfg, calls, G.script_str(cfg, None, {(0, j): f})))
                 meta.append((cfg, a, j, f, "single"))
     # wrong serial on the first connection(s): never used for commands
@@ -108,7 +109,8 @@ def run(ctx, out):
         fl = {}
         for _k in range(rng.randint(2, 4)):
             fl[(rng.randint(0, 3), rng.randrange(len(a.trigger)))] = rng.choice(faults)
-        ops.append(G.op_line(cfg, calls, G.script_str(cfg, None, fl)))
+        pace = rng.choice([0, 0, 3, 7])      # half of them against a terminal that pauses before every packet
+        ops.append(G.op_line(cfg, calls, G.script_str(cfg, None, fl) + (f" gap={pace}" if pace else "")))
         meta.append((cfg, a, None, "multi", "multi"))
     impl, model = ctx.pair(ops)
     out.compare("client(faults)", ops, impl, model)
@@ -141,8 +143,8 @@ def run(ctx, out):
                 why = "a call did not return / panicked"
         if why:
             out.oracle_failures.append({"op": o, "observed": r[:600], "expected": "see what", "key": o[:300], "what": why})
-    out.rule = (f"{len(HISTORIES)} call histories (start-up, read card, begin/commit/cancel over one and two tokens, configure, each followed by a further operation) x a single fault {faults} at EVERY item the terminal sends on the first "
-                "connection (handshake included); wrong / case-different serial; identity request answered with an abort (5 codes); refused and stalled connection attempts; sampled multi-fault sequences over 4 connections. Oracle on the terminal's per-connection log: the failed "
+    out.rule = (f"{len(HISTORIES)} call histories (start-up, read card, begin/commit/cancel over one and two tokens, configure, each followed by a further operation) x a single fault {faults} (and, where an acknowledgement is due, a well-formed intermediate status / completion instead) at EVERY item the terminal sends on the first "
+                "connection (handshake included); wrong / case-different serial; identity request answered with an abort (5 codes); refused and stalled connection attempts; sampled multi-fault sequences over 4 connections (half of them against a terminal pausing 3 s / 7 s before every packet). Oracle on the terminal's per-connection log: the failed "
                 "connection carries exactly the fault-free prefix and nothing after the failure, every other connection starts with registration (configured password, currency) + identity check, one failure => exactly one reconnect "
                 "(the replacement is reused). implementation = model exactly (incl. virtual time stamps)")
     out.samples = [ops[7][:400], {"op": ops[-1][:300], "impl": impl[-1][:400]}]
